@@ -50,6 +50,7 @@ class Interp(object):
         self.exc = self.lib.exc_classes
         self.call_hooks = []
         self.loading_ctx = None
+        self.persistent = {}      # id -> object: pre-existing heap (frame checks)
         self.range_bound = RANGE_BOUND
 
     # ------------------------------------------------------------------
@@ -623,16 +624,49 @@ class Interp(object):
             o = self.eval(t.value, env)
             k = self.eval(t.slice, env)
             if isinstance(o, (list, dict)) and not is_sym(k):
+                self.heap_write(o, 'item')
                 o[k] = v
+            elif isinstance(o, dict):
+                # symbolic key: the dict becomes unknown; record the write
+                self.heap_write(o, 'item (symbolic key)')
+                raise OutsideSubset('store under a symbolic dict key')
             else:
                 raise OutsideSubset('subscript store on %r' % (o,))
         else:
             raise OutsideSubset('assign target %s' % type(t).__name__)
 
+    def mark_persistent(self, root):
+        """everything reachable from root now is pre-existing heap: writes to
+        it during a call are recorded as ('heap-write', ...) events"""
+        todo = [root]
+        while todo:
+            x = todo.pop()
+            if isinstance(x, (Obj, list, dict)):
+                if id(x) in self.persistent:
+                    continue
+                self.persistent[id(x)] = x
+            if isinstance(x, Obj):
+                todo.extend(x.attrs.values())
+                if isinstance(x, TupleObj):
+                    todo.extend(x.items)
+            elif isinstance(x, (list, tuple)):
+                todo.extend(x)
+            elif isinstance(x, dict):
+                todo.extend(x.values())
+            elif isinstance(x, BoundMethod):
+                todo.append(x.self_obj)
+
+    def heap_write(self, o, what):
+        if id(o) in self.persistent and self.ctx is not None:
+            self.ctx.events.append(('heap-write', what,
+                                    getattr(getattr(o, 'cls', None), 'name',
+                                            type(o).__name__)))
+
     def setattr(self, o, name, v):
         if isinstance(o, Obj):
             if self.ctx is not None:
                 self.ctx.events.append(('setattr', o, name))
+            self.heap_write(o, 'attribute %s' % name)
             o.attrs[name] = v
         elif isinstance(o, ClassV):
             o.attrs[name] = v
